@@ -25,7 +25,10 @@ ValueKinds == {"corrupt", "truncate", "short", "missing"}       \* only a read r
 \* outage: error before effect for this operation AND every later one (store unreachable from here on; defeats any retry)
 \* vanish: no failure at all - the key is gone (evicted, flushed, deleted by a concurrent sign-out) at the moment the write arrives,
 \* and the write itself answers normally.  Whatever the implementation makes of that: a cookie it hands out must load.
+\* slow_err: the operation "times out" - the store does not answer for 2.5 s (less than the client's own time-out), then fails without effect.
+\* Whatever the implementation does while waiting, the outcome is that of a failed operation.
 Kinds(op) == {"err_before", "err_after", "outage"} \cup (IF op = "get" THEN ValueKinds ELSE {}) \cup (IF op = "set" THEN {"vanish"} ELSE {})
+             \cup (IF op \in {"get", "set", "del"} THEN {"slow_err"} ELSE {})
 
 \* the serve decision depends on this operation (it precedes and feeds it); failures after the decision may be answered either way
 Decisive(scn, k) ==
@@ -37,9 +40,9 @@ Persists(scn, k) == Ops[scn][k] = "set"
 
 Fault(k, kind) == [k |-> k, kind |-> kind]
 FaultSets(scn) ==
-    LET single == {<<Fault(k, kd)>> : k \in 1..Len(Ops[scn]), kd \in {"err_before", "err_after", "outage", "vanish"} \cup ValueKinds}
+    LET single == {<<Fault(k, kd)>> : k \in 1..Len(Ops[scn]), kd \in {"err_before", "err_after", "outage", "vanish", "slow_err"} \cup ValueKinds}
         valid1 == {f \in single : f[1].kind \in Kinds(Ops[scn][f[1].k]) /\ (scn = "ready_after_ok" => f[1].k = 2 /\ f[1].kind = "outage")}
-        pairs  == {<<f1[1], f2[1]>> : f1 \in {f \in valid1 : f[1].kind \notin {"outage", "vanish"}}, f2 \in {f \in valid1 : f[1].kind # "vanish"}}
+        pairs  == {<<f1[1], f2[1]>> : f1 \in {f \in valid1 : f[1].kind \notin {"outage", "vanish", "slow_err"}}, f2 \in {f \in valid1 : f[1].kind \notin {"vanish", "slow_err"}}}
     IN valid1 \cup (IF Pairs THEN {p \in pairs : p[1].k < p[2].k} ELSE {})
 
 \* ---- what the property forbids for a case ---------------------------------------------------------
